@@ -27,6 +27,20 @@ FiltersOf(r) == IF Workload[r].k = "sub" THEN [i \in 1..Len(Workload[r].subs) |-
 \* the request exists from the moment the API is called (the Submit event is recorded after the call
 \* returned, by which time the task goroutine may already have written the packet)
 TSubmit == Is("SubmitCall") /\ Submit /\ Adv
+\* DirectlyPublishQoS0: the call itself writes the packet (or fails without writing); the request is counted when its
+\* PUBLISH is seen, or when the call is seen to return without one
+DirectNext == submitted < N /\ IsDirect(submitted + 1)
+TDirectCall == Is("SubmitCall") /\ DirectNext /\ Ev.i = submitted + 1 /\ Adv /\ UNCHANGED vars
+TDirectWrite ==
+  /\ Is("Write") /\ Ev.p = "PUBLISH" /\ DirectNext /\ Ev.tag = submitted + 1 /\ Adv
+  /\ SubmitDirect(Ev.o)
+  /\ lastw'.p = "PUBLISH" /\ lastw'.g = Ev.g /\ lastw'.ok = Ev.ok /\ lastw'.r = Ev.tag
+TDirectRet ==
+  /\ Is("Submit") /\ DirectNext /\ Ev.i = submitted + 1 /\ Adv
+  /\ IF Ev.res = "not-submitted"
+     THEN submitted' = submitted + 1 /\ UNCHANGED <<taskQ, tok, retryQ, subEst, nrbe, tg, gen, connErr, bc, rl, faults, dialled>>
+          /\ UNCHANGED bvars /\ UNCHANGED ovars
+     ELSE SubmitDirect("ok") /\ ~bc[gen].sig      \* returned without a write: ErrNotConnected
 TDialOk == Is("Dial") /\ Ev.res = "ok" /\ RLDialOk /\ Adv
 TDialFail == Is("Dial") /\ Ev.res = "fail" /\ RLDialFail /\ Adv
 TConnect ==
@@ -36,16 +50,23 @@ TConnect ==
      ELSE RLConnectFail
 TWrite ==
   /\ Is("Write") /\ Ev.p \in {"PUBLISH", "PUBREL", "SUBSCRIBE", "UNSUBSCRIBE"} /\ Adv
+  /\ ~(Ev.p = "PUBLISH" /\ IsDirect(Ev.tag))
   /\ TGWrite(Ev.o)
   /\ lastw'.p = Ev.p /\ lastw'.g = Ev.g /\ lastw'.ok = Ev.ok
   /\ (Ev.p = "PUBLISH" => (lastw'.r = Ev.tag /\ lastw'.dup = Ev.dup))
   /\ (Ev.p = "PUBREL" => lastw'.r = Ev.rtag)
   /\ (Ev.p \in {"SUBSCRIBE", "UNSUBSCRIBE"} =>
         IF lastw'.r > 0 THEN FiltersOf(lastw'.r) = Ev.fs ELSE <<tg.cur.f>> = Ev.fs)
+\* C17: Handle calls and the broker's application messages
+THandle == Is("Handle") /\ Ev.phase = "call" /\ HandleCall /\ Adv
+TInbound == Is("Send") /\ Ev.p = "PUBLISH" /\ MaxInbound > 0 /\ Inbound(Ev.g) /\ Adv
 TPeerClose == Is("Close") /\ Ev.by = "peer" /\ PeerClose(Ev.g) /\ Adv
 \* closes by the plan (inside a write) and by the client itself are part of the write / TGAfter actions
 TSkip == /\ l <= Len(TL)
-         /\ \/ TL[l].e \in {"Submit", "Call", "Ret", "ConnOpt", "ConnState", "OnError", "Send", "Read", "Idle", "Sample"}
+         /\ \/ TL[l].e \in {"Call", "Ret", "ConnOpt", "ConnState", "OnError", "Read", "Idle", "Sample", "Handled"}
+            \/ (TL[l].e = "Send" /\ ~(TL[l].p = "PUBLISH" /\ MaxInbound > 0))
+            \/ (TL[l].e = "Handle" /\ TL[l].phase = "ret")
+            \/ (TL[l].e = "Submit" /\ ~(DirectNext /\ TL[l].i = submitted + 1))
             \/ (TL[l].e = "Close" /\ TL[l].by # "peer")
             \/ (TL[l].e = "Dial" /\ TL[l].res = "ctx")
          /\ Adv /\ UNCHANGED vars
@@ -54,7 +75,7 @@ Silent == /\ UNCHANGED <<tid, l>> /\ l <= Len(TL)
              \/ (\E g \in Gen : ServeExit(g))
              \/ TGWait \/ TGTop \/ TGIdle \/ TGAfter \/ TGRunStart \/ TGRetryNext \/ TGResubNext \/ TGBegin
              \/ TGWaitClosed \/ TGTimeout
-TNext == TSubmit \/ TDialOk \/ TDialFail \/ TConnect \/ TWrite \/ TPeerClose \/ TSkip \/ Silent
+TNext == TSubmit \/ THandle \/ TInbound \/ TDirectCall \/ TDirectWrite \/ TDirectRet \/ TDialOk \/ TDialFail \/ TConnect \/ TWrite \/ TPeerClose \/ TSkip \/ Silent
 TInit == Init /\ tid \in 1..Len(TraceLog) /\ l = 1
 TSpec == TInit /\ [][TNext]_tvars
 
